@@ -365,7 +365,11 @@ def ps(s):
     if k == "var":
         return f"var {s['n']} = {pe(s['e'])}"
     if k == "ref":
+        if s.get("style") == ":=":
+            return f"var {s['n']} := {pe(s['e'])}"
         return f"var &{s['n']} = {pe(s['e'])}"
+    if k == "casg":
+        return f"{pe(s['l'])} {s['op']} {pe(s['e'])}"
     if k == "global":
         return f"global {s['n']} = {pe(s['e'])}"
     if k == "asg":
